@@ -100,7 +100,7 @@ class C13(Check):
                  "first non-None, version injectivity) + differential correspondence with the real functions")
     rule = ("merge cases: every ordered pair of dict trees over {None,0,1,'x',b'x',[],(),set(),{}} and nested "
             "list/tuple/set/dict with node-count bound, all four (merge_lists, merge_sets) settings, the single-key "
-            "family {a:X} x {a:Y} over all values up to 3 nodes, and seeded random deeper trees (tuple/bytes/int/None "
+            "family {a:X} x {a:Y} over sampled pairs of values up to 3 nodes, and seeded random deeper trees (tuple/bytes/int/None "
             "keys, opaque objects); chain cases: chains of 0..4 recording sources (fixed answer or raising) through the "
             "real get_composite_data_source; non-trivial = merge with at least one common key, or chain with >= 2 sources; "
             "distinct by full case")
@@ -126,8 +126,7 @@ class C13(Check):
         # one common key, every pair of values up to 3 nodes
         vs = [v for n in (1, 2, 3) for v in pyval.vals(n)]
         pairs = [(x, y) for x in vs for y in vs]
-        if tier == "quick":
-            pairs = rng.sample(pairs, 6000)
+        pairs = rng.sample(pairs, 6000 if tier == "quick" else 60000)
         for x, y in pairs:
             for ml, ms in flags:
                 yield {"kind": "merge", "a": {"a": pyval.thaw(x)}, "b": {"a": pyval.thaw(y)}, "ml": ml, "ms": ms}
